@@ -78,3 +78,113 @@ def _check_fw_site(ctx, ex, p, c, label, want_err):
     wrapped = any(s[0] == "agg" and s[2] == "Err" and any(x[0] == "call" and x[3] is c for x in walk(s)) for s in walk(e0))
     ctx.require(wrapped, "R-FLOW", "farewell:%s:returned" % label, "outcome is what the function returns",
                 "the outcome built by from_uncatchable_error at %s is not the returned value" % c.loc())
+
+
+# ------------------------------------------------------------------------------------------------
+def owner_name(fn):
+    return fn.path.split("::{closure")[0].split("::")[-1]
+
+
+def owner_qual(fn):
+    segs = fn.path.split("::{closure")[0].split("::")
+    return "::".join(segs[-2:])
+
+
+def field_mutators(F, adt, field, reach=None):
+    """{owner function name: [kinds]} for every write / mutable borrow / move-out of adt.field."""
+    out = {}
+    for fn, bb, kind, _ in lib.field_accesses(F, adt, field):
+        if reach is not None and fn.id not in reach:
+            continue
+        if fn.ex and any("derive" in x for x in fn.ex):
+            continue
+        if kind in ("write", "mutborrow", "move"):
+            out.setdefault(owner_qual(fn), set()).add(kind)
+    return out
+
+
+def eq_guard(fn, prov, bb, left_pred, right_pred):
+    """Is block bb guarded (on every path) by an edge on which `L == R` holds with L,R satisfying the
+    predicates (either order)?  Returns the guard's rendering or None."""
+    for br, rel in lib.guards_of(fn, bb, prov):
+        if rel is None or rel[0] != "==":
+            continue
+        a, b = rel[1], rel[2]
+        if (left_pred(a) and right_pred(b)) or (left_pred(b) and right_pred(a)):
+            return "%s == %s" % (show(a), show(b))
+    return None
+
+
+def ne_guard(fn, prov, bb, left_pred, right_pred):
+    for br, rel in lib.guards_of(fn, bb, prov):
+        if rel is None or rel[0] != "!=":
+            continue
+        a, b = rel[1], rel[2]
+        if (left_pred(a) and right_pred(b)) or (left_pred(b) and right_pred(a)):
+            return "%s != %s" % (show(a), show(b))
+    return None
+
+
+def is_current_peer(e):
+    return lib.mentions_field(e, "current_peer_id") and lib.mentions_field(e, "run_parameters")
+
+
+def call_request_site(ctx, F, want=("writers", "guard", "pair")):
+    """The single place where a call request is issued (ResolvedCall::execute) and its guards.
+    Shared by C05 / C06 / C19."""
+    ex = F.fn("resolved_call::ResolvedCall::execute")
+    p = Prov(ex)
+    reach, _ = F.reachable_fns([F.fn("runner::execute_air")])
+    res = {"fn": ex, "prov": p}
+    ins = [c for c in ex.calls if c.path.endswith("HashMap::insert") and lib.mentions_field(p.operand(c.args[0]), "call_requests")]
+    ctx.floor("R-WRITERS", "call_requests.insert in ResolvedCall::execute", len(ins), 1)
+    if not ins:
+        return None
+    res["insert"] = ins[0]
+    if "writers" in want:
+        muts = field_mutators(F, "ExecutionCtx", "call_requests", reach)
+        allowed = {"ResolvedCall::execute": "issues the request", "ExecutionCtx::new": "constructs empty",
+                   "outcome::populate_outcome_from_contexts": "moves the map into the outcome"}
+        for o, kinds in sorted(muts.items()):
+            ctx.require(o in allowed, "R-WRITERS", "call_requests-mutator:" + o, "%s (%s): %s" % (o, ",".join(sorted(kinds)), allowed.get(o)),
+                        "ExecutionCtx.call_requests is now modified (%s) in %s: call requests may be issued outside ResolvedCall::execute"
+                        % (",".join(sorted(kinds)), o))
+        ctx.require(len(ins) == 1, "R-WRITERS", "call_requests-single-insert", "exactly one insertion site",
+                    "ResolvedCall::execute now inserts into call_requests at %d sites" % len(ins))
+    i = ins[0]
+    if "guard" in want:
+        # (i) should_execute true edge
+        g = None
+        for br, rel in lib.guards_of(ex, i.bb, p):
+            if rel and rel[0] == "bool" and br.expr[0] == "call" and br.expr[1].endswith("StateDescriptor::should_execute") and rel[2] is True:
+                g = br
+        ctx.require(g is not None, "R-GUARD", "request:should-execute", "insertion only on the true edge of state.should_execute()",
+                    "the call-request insertion is reachable without state.should_execute() being true",
+                    sample={"site": i.loc()})
+        if g is not None:
+            se = g.expr[2][0]
+            ctx.require(lib.mentions_call(se, "prepare_current_executed_state"), "R-FLOW", "request:state-from-trace",
+                        "the state asked is the one computed from the merged trace", "should_execute is asked of `%s`" % show(se)[:160])
+        # (ii) peer equality
+        eg = eq_guard(ex, p, i.bb, lambda e: lib.mentions_field(e, "peer_pk") and lib.mentions_field(e, "tetraplet"), is_current_peer)
+        ctx.require(eg is not None, "R-GUARD", "request:self-addressed", "insertion only where %s" % eg,
+                    "the call-request insertion is not guarded by tetraplet.peer_pk == run_parameters.current_peer_id",
+                    sample={"guard": eg})
+    if "pair" in want:
+        key = p.operand(i.args[1])
+        ctx.require(key[0] == "call" and key[1].endswith("ExecutionCtx::next_call_request_id"), "R-FLOW", "request:key-is-fresh-id",
+                    "request key := exec_ctx.next_call_request_id()", "the call request is keyed by `%s`" % show(key))
+        ends = [c for c in ex.calls_to("TraceHandler::meet_call_end") if c.bb in ex.reach_after(i.bb)]
+        ok = bool(ends) and ex.must_pass(i.target, [c.bb for c in ends])
+        ctx.require(ok, "R-PAIR", "request:pending-mark", "every path from the insertion to return records meet_call_end",
+                    "after inserting a call request ResolvedCall::execute can return without recording the pending state (meet_call_end)")
+        for c in ends:
+            st = p.operand(c.args[1])
+            good = (st[0] == "call" and st[1].endswith("sent_peer_id_with_call_id") and is_current_peer(st[2][0])
+                    and st[2][1][0] == "call" and key[0] == "call" and st[2][1][3] is key[3])
+            ctx.require(good, "R-PAIR", "request:pending-mark-shape",
+                        "persisted state = RequestSentBy(current_peer_id, same id as the request key)",
+                        "the state recorded after issuing a request is `%s`, expected sent_peer_id_with_call_id(current_peer_id, <the request's id>)"
+                        % show(st)[:200], sample={"state": show(st)[:200]})
+        res["ends"] = ends
+    return res
